@@ -37,16 +37,22 @@ def off_of(d):
     return int(o.total_seconds()) if o is not None else "naive"
 
 
+_BASES = {}
+
+
 def decode_settings(st):
     """JSON settings -> real settings dict (RELATIVE_BASE list -> datetime)."""
     if st is None:
         return None
     out = {}
     for k, v in st.items():
-        if k == "RELATIVE_BASE" and isinstance(v, list):
-            out[k] = list_to_dt(v)
-        elif k == "RELATIVE_BASE" and isinstance(v, dict):
-            out[k] = list_to_dt(v["dt"], v.get("tz"))
+        if k == "RELATIVE_BASE" and isinstance(v, (list, dict)):
+            # a program keeps ONE reference datetime and passes it again and again: equal bases of one process are
+            # the same object here too (and a different object for every other value)
+            key = json.dumps(v, sort_keys=True)
+            if key not in _BASES:
+                _BASES[key] = list_to_dt(v) if isinstance(v, list) else list_to_dt(v["dt"], v.get("tz"))
+            out[k] = _BASES[key]
         else:
             out[k] = v
     return out
